@@ -6,6 +6,7 @@ from ... import ir
 from ...utils.bitfun import rotr, rotl, to_signed, to_unsigned
 from ...utils.bitfun import clz, ctz, popcnt, sign_extend
 from ..util import make_int
+from ._base_instance import WasmTrapException
 
 
 class Unreachable(RuntimeError):
@@ -87,60 +88,49 @@ def i64_popcnt(v: ir.i64) -> ir.i64:
 
 
 # Conversions:
+def _trunc(value: float, lower_limit: int, upper_limit: int, bits: int) -> int:
+    """Truncate a float to an integer.
+
+    This operation traps when the result cannot be represented.
+    """
+    if math.isnan(value) or math.isinf(value):
+        raise WasmTrapException("invalid conversion to integer")
+    v = int(value)
+    if v < lower_limit or v > upper_limit:
+        raise WasmTrapException("integer overflow")
+    return make_int(v, bits)
+
+
 def i32_trunc_f32_s(value: ir.f32) -> ir.i32:
-    if math.isinf(value):
-        return 0  # undefined
-    else:
-        return int(value)
+    return _trunc(value, MIN_I32, MAX_I32, 32)
 
 
 def i32_trunc_f32_u(value: ir.f32) -> ir.i32:
-    if math.isinf(value):
-        return 0  # undefined
-    else:
-        return make_int(value, 32)
+    return _trunc(value, MIN_U32, MAX_U32, 32)
 
 
 def i32_trunc_f64_s(value: ir.f64) -> ir.i32:
-    if math.isinf(value):
-        return 0  # undefined
-    else:
-        return int(value)
+    return _trunc(value, MIN_I32, MAX_I32, 32)
 
 
 def i32_trunc_f64_u(value: ir.f64) -> ir.i32:
-    if math.isinf(value):
-        return 0  # undefined
-    else:
-        return make_int(value, 32)
+    return _trunc(value, MIN_U32, MAX_U32, 32)
 
 
 def i64_trunc_f32_s(value: ir.f32) -> ir.i64:
-    if math.isinf(value):
-        return 0  # undefined
-    else:
-        return int(value)
+    return _trunc(value, MIN_I64, MAX_I64, 64)
 
 
 def i64_trunc_f32_u(value: ir.f32) -> ir.i64:
-    if math.isinf(value):
-        return 0  # undefined
-    else:
-        return make_int(value, 64)
+    return _trunc(value, MIN_U64, MAX_U64, 64)
 
 
 def i64_trunc_f64_s(value: ir.f64) -> ir.i64:
-    if math.isinf(value):
-        return 0  # undefined
-    else:
-        return int(value)
+    return _trunc(value, MIN_I64, MAX_I64, 64)
 
 
 def i64_trunc_f64_u(value: ir.f64) -> ir.i64:
-    if math.isinf(value):
-        return 0  # undefined
-    else:
-        return make_int(value, 64)
+    return _trunc(value, MIN_U64, MAX_U64, 64)
 
 
 # saturated trunc
